@@ -376,6 +376,12 @@ Section Stmts.
     assert (Hth : is_ws (look0 (render_ty ty ++ mk T_NL :: r)) = false) by (destruct ty; reflexivity).
     assert (A1 : at_toks (adv s) (mk T_COLON :: render_ty ty ++ mk T_NL :: r) e).
     { apply (adv_at s (ident_tok x) (mk T_COLON :: render_ty ty ++ mk T_NL :: r) e); [split; auto|reflexivity]. }
+    assert (Pc : passert T_COLON (adv s) = (true, adv s)).
+    { destruct A1 as (R1 & _ & _).
+      assert (G : forall q : pst, cur_t (Parser.cs q) = T_COLON -> passert T_COLON q = (true, q)).
+      { intros q Hq. unfold passert, assert_token. rewrite Hq. cbn. destruct q; reflexivity. }
+      apply G. unfold cur_t, cur. rewrite R1. reflexivity. }
+    rewrite Pc. cbn [snd].
     assert (A2 : at_toks (adv (adv s)) (render_ty ty ++ mk T_NL :: r) e).
     { assert (Hs : skip1 (render_ty ty ++ mk T_NL :: r) = render_ty ty ++ mk T_NL :: r) by (destruct ty; reflexivity).
       rewrite <- Hs. apply (adv_at (adv s) (mk T_COLON) (render_ty ty ++ mk T_NL :: r) e A1). rewrite Hs. exact Hth. }
